@@ -59,6 +59,11 @@ func c20Kinds() []c20Kind {
 		// HAVING over aggregates that are not selected (computed on the side for the filter only), with and without ORDER BY / LIMIT
 		{"window-having-unselected", "SELECT k, count(*) AS c FROM stream GROUP BY k, CountingWindow(2) HAVING max(a) > 0 AND min(a) < 100", false, false},
 		{"window-having-unselected-order", "SELECT k, count(*) AS c, sum(a) AS s FROM stream GROUP BY k, TumblingWindow('2s') WITH (TIMESTAMP='ts', TIMEUNIT='ms') HAVING avg(a) > 0 ORDER BY s DESC LIMIT 2", false, false},
+		// a FROM alias without a JOIN (direct, window and analytic paths)
+		{"alias-direct", "SELECT k, a FROM stream s WHERE a > 0", true, false},
+		{"alias-as-direct", "SELECT s.k, s.a AS x FROM stream AS s", true, false},
+		{"alias-window", "SELECT k, sum(a) AS t FROM stream AS s GROUP BY k, CountingWindow(2)", false, false},
+		{"alias-analytic", "SELECT k, lag(a) OVER (PARTITION BY k) AS p FROM stream s", true, false},
 		{"cep", "SELECT * FROM stream MATCH_RECOGNIZE (PARTITION BY k ORDER BY ts MEASURES LAST(a) AS la, FIRST(d.x) AS fx ALL ROWS PER MATCH PATTERN (A B) DEFINE A AS a > 0, B AS a > 0)", false, false},
 	}
 }
